@@ -35,6 +35,7 @@ type job struct {
 	Args    []string `json:"args"`
 	Race    bool     `json:"race"`
 	Timeout int      `json:"timeout_s"`
+	Bin     string   `json:"bin,omitempty"`
 }
 
 type result struct {
@@ -150,6 +151,20 @@ func (b *builder) build(race bool) string {
 	return bin
 }
 
+// buildPlain builds the un-instrumented harness binary (no overlay) from the current /repo tree.
+func (b *builder) buildPlain() string {
+	if p, ok := b.bins["vplain"]; ok {
+		return p
+	}
+	bin := filepath.Join(b.scratch, "vplain")
+	out, err := run(filepath.Join(verifDir, "harness"), goEnv(), "go", "build", "-tags", "verif", "-o", bin, "./cmd/vplain")
+	if err != nil {
+		fatal(2, "plain harness build failed: %v\n%s", err, out)
+	}
+	b.bins["vplain"] = bin
+	return bin
+}
+
 func loadFindings() []finding {
 	var f []finding
 	data, err := os.ReadFile(filepath.Join(verifDir, "known_findings.json"))
@@ -204,6 +219,9 @@ func runJob(b *builder, prop, tier string, j job, idx int, seed int64, deadline 
 	bin := b.bins["vh"]
 	if j.Race {
 		bin = b.bins["vh-race"]
+	}
+	if j.Bin == "vplain" {
+		bin = b.bins["vplain"]
 	}
 	timeout := j.Timeout
 	if timeout == 0 {
@@ -333,6 +351,9 @@ func check(prop, tier string) int {
 	for _, j := range jobs {
 		if j.Race {
 			needRace = true
+		}
+		if j.Bin == "vplain" {
+			b.buildPlain()
 		}
 	}
 	if needRace {
@@ -593,6 +614,9 @@ func confirm(b *builder, prop string, path string, v violation) (bool, string) {
 			continue
 		}
 		bin := b.bins["vh"]
+		if prop == "C16" {
+			bin = b.buildPlain()
+		}
 		out, err = run(b.scratch, append(goEnv(), "GORACE=halt_on_error=1 exitcode=66"), bin, "-replay", path)
 		if err == nil {
 			return false, fmt.Sprintf("replay %d did not reproduce:\n%s", i, tail(out, 20))
